@@ -52,139 +52,154 @@ def run(ctx):
     main = fb.find("main", crate="bin")
 
     # ------------------------------------------------------------------ C17-exit
-    ctx.rule("C17-exit", "status 0 iff every form succeeded: Err arm of eval_file's result reaches only "
-                         "process::exit(c != 0); Ok arm returns without exit")
-    ef = [(b, t) for b, t in main.calls() if callee_matches(t, "Interpreter::eval_file")]
-    if len(ef) != 1:
-        ctx.report("C17-exit", "main/eval_file-call", "expected exactly one call of eval_file in main, found %d" % len(ef),
-                   where_of(main))
-    else:
-        b, t = ef[0]
-        sw = mir.result_switch_after(main, b)
-        if not sw:
-            ctx.report("C17-exit", "main/result-match", "the result of eval_file is not matched on its discriminant",
-                       where_of(main, t))
-        else:
-            sb, targets, other = sw
-            ok_t = targets.get(0, other)
-            err_t = targets.get(1, other)
-            err_blocks = main.reachable(err_t)
-            ok_blocks = main.reachable(ok_t)
-            exits = [(bb, tt) for bb, tt in main.calls() if callee_matches(tt, "std::process::exit")]
-            ctx.inst("C17-exit", "main/err-arm", {"blocks": len(err_blocks)})
-            ctx.inst("C17-exit", "main/ok-arm", {"blocks": len(ok_blocks)})
-            for bb, tt in exits:
-                code = mir.const_int(tt["args"][0])
-                ctx.inst("C17-exit", "main/exit-call/%s" % code, {"code": code, "where": where_of(main, tt)})
-                if code is None or code == 0:
-                    if bb in err_blocks:
-                        ctx.report("C17-exit", "main/exit-code", "process::exit in the error arm is called with %r "
-                                   "(must be a non-zero constant)" % (code,), where_of(main, tt))
-                if bb in ok_blocks and bb not in err_blocks:
-                    ctx.report("C17-exit", "main/ok-exits", "the success arm calls process::exit", where_of(main, tt))
-                if bb in ok_blocks and bb in err_blocks and (code is None or code != 0):
-                    pass
-            err_exits = [bb for bb, tt in exits if bb in err_blocks]
-            if not err_exits:
-                ctx.report("C17-exit", "main/err-no-exit", "no process::exit is reachable from the error arm",
-                           where_of(main, t))
-            # every path from the error arm must hit an exit: no `return` reachable while avoiding exits
-            rets = [r for r in main.return_blocks()]
-            wit = mir.paths_avoiding(main, err_t, rets, err_exits)
-            if wit is not None:
-                # a return in the error arm is acceptable only if it returns Err (non-zero via Termination)
-                okret = False
-                for bb in wit:
-                    for s in main.blocks[bb]["stmts"]:
-                        if s["k"] == "assign" and s["place"]["local"] == 0 and s["rv"]["k"] == "aggregate" \
-                                and s["rv"]["kind"].get("variant") == "Err":
-                            okret = True
-                if not okret:
-                    ctx.report("C17-exit", "main/err-returns", "a path from the error arm reaches `return` without "
-                               "process::exit (status would be 0): blocks %s" % wit, where_of(main, t))
-            # ok arm: must reach a return, and exits reachable from the ok arm only if shared (none expected)
-            if not (set(rets) & ok_blocks):
-                ctx.report("C17-exit", "main/ok-no-return", "the success arm does not reach `return`", where_of(main, t))
-            for bb, tt in exits:
-                if bb in ok_blocks:
-                    ctx.report("C17-exit", "main/ok-exits", "process::exit is reachable from the success arm",
-                               where_of(main, tt))
+    ctx.rule("C17-exit", "status 0 iff every form succeeded: a failed evaluation ends in a non-zero exit status, a successful one does not exit")
+    ctx.rule("C17-stderr", "the diagnostic goes to standard error only, as one line `FILE:LINE:COL MESSAGE`")
+    from . import maintables
+    d_main = maintables.rule_main(ctx, "C17-exit", "C17-stderr")
 
-            # -------------------------------------------------------------- C17-stderr
-            ctx.rule("C17-stderr", "the diagnostic goes only to the StandardStream::stderr handle, as one line "
-                                   "`{file}:{line}:{col} {error}\\n` with the right arguments")
-            prov = Prov(main)
-            pieces_all = []
-            args_all = []
-            for bb, tt in main.calls(err_blocks):
-                if callee_matches(tt, "std::io::Write::write_fmt", "std::io::Write::write_all", "std::io::Write::write"):
-                    roots = prov.call_roots(tt["args"][0])
-                    names = {c for _, c in roots}
-                    ctx.inst("C17-stderr", "main/write@%s" % mir.trace_place(main, tt["args"][0])[0],
-                             {"receiver_roots": sorted(names)})
-                    if not any(n and n.endswith("StandardStream::stderr") or n == "std::io::stderr" for n in names) \
-                            or any(n and ("stdout" in n) for n in names):
-                        ctx.report("C17-stderr", "main/write-target", "a write in the error arm does not target the "
-                                   "stderr handle (receiver derives from %s)" % sorted(names), where_of(main, tt))
-            for bb in sorted(err_blocks):
-                for cb, tt, pieces, kinds, ops in mir.format_calls(main, [bb]):
-                    if pieces is None:
-                        ctx.report("C17-stderr", "main/template", "format template not decodable", where_of(main, tt))
-                        continue
-                    pieces_all.append((bb, pieces, kinds, ops, tt))
-            # order the format calls along the longest path (with location): by reverse post order
-            order = {b2: i for i, b2 in enumerate(main.rpo())}
-            pieces_all.sort(key=lambda x: order.get(x[0], 0))
-            tmpl = ""
-            arg_ops = []
-            for bb, pieces, kinds, ops, tt in pieces_all:
-                for p in pieces:
-                    if isinstance(p, str):
-                        tmpl += p
-                    else:
-                        tmpl += "{}"
-                        arg_ops.append(ops[p[1]] if p[1] < len(ops) else None)
-                        args_all.append((kinds[p[1]] if p[1] < len(kinds) else "?",
-                                         mir.trace_place(main, ops[p[1]])[0] if p[1] < len(ops) else "?"))
-            ctx.inst("C17-stderr", "main/template", {"template": tmpl, "args": args_all})
-            if not re.fullmatch(r"\{\}:\{\}:\{\} +\{\}\n", tmpl):
-                ctx.report("C17-stderr", "main/format", "diagnostic template is %r, expected `{}:{}:{} {}\\n`" % tmpl,
+    def _old_exit():
+        ctx.rule("C17-exit", "status 0 iff every form succeeded: Err arm of eval_file's result reaches only "
+                             "process::exit(c != 0); Ok arm returns without exit")
+        ef = [(b, t) for b, t in main.calls() if callee_matches(t, "Interpreter::eval_file")]
+        if len(ef) != 1:
+            ctx.report("C17-exit", "main/eval_file-call", "expected exactly one call of eval_file in main, found %d" % len(ef),
+                       where_of(main))
+        else:
+            b, t = ef[0]
+            sw = mir.result_switch_after(main, b)
+            if not sw:
+                ctx.report("C17-exit", "main/result-match", "the result of eval_file is not matched on its discriminant",
                            where_of(main, t))
             else:
-                # arguments: file (derived from env::args), location[0], location[1], the error (Display)
-                a = args_all
-                file_local = None
-                ok = len(a) == 4
-                if ok:
-                    ok = a[1][1].endswith("[0]") and a[2][1].endswith("[1]") and \
-                        a[1][1][:-3] == a[2][1][:-3] and _from_location(main, prov, arg_ops[1])
-                    if not ok:
-                        ctx.report("C17-stderr", "main/format-args", "LINE/COL placeholders are fed from %s and %s, "
-                                   "expected location[0] and location[1]" % (a[1][1], a[2][1]), where_of(main, t))
-                    if a[3][0] != "display":
-                        ctx.report("C17-stderr", "main/format-args", "the message is not printed with Display",
-                                   where_of(main, t))
-                    # line, column and message must all come from the one error value (the Err payload)
-                    def err_locals(o):
-                        l = mir.op_local(o)
-                        return {x for x in prov.reach_locals(l)
-                                if main.local_ty(x).endswith("error::Located<ruschm::error::ErrorData>") or main.local_ty(x).endswith("error::Located<error::ErrorData>")} if l is not None else set()
-                    common = err_locals(arg_ops[1]) & err_locals(arg_ops[2]) & err_locals(arg_ops[3])
-                    if not common:
-                        ctx.report("C17-stderr", "main/format-args", "line, column and message do not derive from "
-                                   "one SchemeError value (%s, %s, %s)" % (a[1][1], a[2][1], a[3][1]), where_of(main, t))
-                    if "location" not in main.local_name(mir.op_local(arg_ops[1]) or 0) if False else False:
+                sb, targets, other = sw
+                ok_t = targets.get(0, other)
+                err_t = targets.get(1, other)
+                err_blocks = main.reachable(err_t)
+                ok_blocks = main.reachable(ok_t)
+                exits = [(bb, tt) for bb, tt in main.calls() if callee_matches(tt, "std::process::exit")]
+                ctx.inst("C17-exit", "main/err-arm", {"blocks": len(err_blocks)})
+                ctx.inst("C17-exit", "main/ok-arm", {"blocks": len(ok_blocks)})
+                for bb, tt in exits:
+                    code = mir.const_int(tt["args"][0])
+                    ctx.inst("C17-exit", "main/exit-call/%s" % code, {"code": code, "where": where_of(main, tt)})
+                    if code is None or code == 0:
+                        if bb in err_blocks:
+                            ctx.report("C17-exit", "main/exit-code", "process::exit in the error arm is called with %r "
+                                       "(must be a non-zero constant)" % (code,), where_of(main, tt))
+                    if bb in ok_blocks and bb not in err_blocks:
+                        ctx.report("C17-exit", "main/ok-exits", "the success arm calls process::exit", where_of(main, tt))
+                    if bb in ok_blocks and bb in err_blocks and (code is None or code != 0):
                         pass
+                err_exits = [bb for bb, tt in exits if bb in err_blocks]
+                if not err_exits:
+                    ctx.report("C17-exit", "main/err-no-exit", "no process::exit is reachable from the error arm",
+                               where_of(main, t))
+                # every path from the error arm must hit an exit: no `return` reachable while avoiding exits
+                rets = [r for r in main.return_blocks()]
+                wit = mir.paths_avoiding(main, err_t, rets, err_exits)
+                if wit is not None:
+                    # a return in the error arm is acceptable only if it returns Err (non-zero via Termination)
+                    okret = False
+                    for bb in wit:
+                        for s in main.blocks[bb]["stmts"]:
+                            if s["k"] == "assign" and s["place"]["local"] == 0 and s["rv"]["k"] == "aggregate" \
+                                    and s["rv"]["kind"].get("variant") == "Err":
+                                okret = True
+                    if not okret:
+                        ctx.report("C17-exit", "main/err-returns", "a path from the error arm reaches `return` without "
+                                   "process::exit (status would be 0): blocks %s" % wit, where_of(main, t))
+                # ok arm: must reach a return, and exits reachable from the ok arm only if shared (none expected)
+                if not (set(rets) & ok_blocks):
+                    ctx.report("C17-exit", "main/ok-no-return", "the success arm does not reach `return`", where_of(main, t))
+                for bb, tt in exits:
+                    if bb in ok_blocks:
+                        ctx.report("C17-exit", "main/ok-exits", "process::exit is reachable from the success arm",
+                                   where_of(main, tt))
+
+                # -------------------------------------------------------------- C17-stderr
+                ctx.rule("C17-stderr", "the diagnostic goes only to the StandardStream::stderr handle, as one line "
+                                       "`{file}:{line}:{col} {error}\\n` with the right arguments")
+                prov = Prov(main)
+                pieces_all = []
+                args_all = []
+                for bb, tt in main.calls(err_blocks):
+                    if callee_matches(tt, "std::io::Write::write_fmt", "std::io::Write::write_all", "std::io::Write::write"):
+                        roots = prov.call_roots(tt["args"][0])
+                        names = {c for _, c in roots}
+                        ctx.inst("C17-stderr", "main/write@%s" % mir.trace_place(main, tt["args"][0])[0],
+                                 {"receiver_roots": sorted(names)})
+                        if not any(n and n.endswith("StandardStream::stderr") or n == "std::io::stderr" for n in names) \
+                                or any(n and ("stdout" in n) for n in names):
+                            ctx.report("C17-stderr", "main/write-target", "a write in the error arm does not target the "
+                                       "stderr handle (receiver derives from %s)" % sorted(names), where_of(main, tt))
+                for bb in sorted(err_blocks):
+                    for cb, tt, pieces, kinds, ops in mir.format_calls(main, [bb]):
+                        if pieces is None:
+                            ctx.report("C17-stderr", "main/template", "format template not decodable", where_of(main, tt))
+                            continue
+                        pieces_all.append((bb, pieces, kinds, ops, tt))
+                # order the format calls along the longest path (with location): by reverse post order
+                order = {b2: i for i, b2 in enumerate(main.rpo())}
+                pieces_all.sort(key=lambda x: order.get(x[0], 0))
+                tmpl = ""
+                arg_ops = []
+                for bb, pieces, kinds, ops, tt in pieces_all:
+                    for p in pieces:
+                        if isinstance(p, str):
+                            tmpl += p
+                        else:
+                            tmpl += "{}"
+                            arg_ops.append(ops[p[1]] if p[1] < len(ops) else None)
+                            args_all.append((kinds[p[1]] if p[1] < len(kinds) else "?",
+                                             mir.trace_place(main, ops[p[1]])[0] if p[1] < len(ops) else "?"))
+                ctx.inst("C17-stderr", "main/template", {"template": tmpl, "args": args_all})
+                if not re.fullmatch(r"\{\}:\{\}:\{\} +\{\}\n", tmpl):
+                    ctx.report("C17-stderr", "main/format", "diagnostic template is %r, expected `{}:{}:{} {}\\n`" % tmpl,
+                               where_of(main, t))
                 else:
-                    ctx.report("C17-stderr", "main/format-args", "expected 4 placeholders, got %d" % len(a), where_of(main, t))
-            # no stdout writer in the error arm
-            for bb, tt in main.calls(err_blocks):
-                if callee_matches(tt, *STDOUT_FNS):
-                    ctx.report("C17-stderr", "main/stdout-in-error-arm", "the error arm writes to standard output via %s"
-                               % callee(tt), where_of(main, tt))
+                    # arguments: file (derived from env::args), location[0], location[1], the error (Display)
+                    a = args_all
+                    file_local = None
+                    ok = len(a) == 4
+                    if ok:
+                        ok = a[1][1].endswith("[0]") and a[2][1].endswith("[1]") and \
+                            a[1][1][:-3] == a[2][1][:-3] and _from_location(main, prov, arg_ops[1])
+                        if not ok:
+                            ctx.report("C17-stderr", "main/format-args", "LINE/COL placeholders are fed from %s and %s, "
+                                       "expected location[0] and location[1]" % (a[1][1], a[2][1]), where_of(main, t))
+                        if a[3][0] != "display":
+                            ctx.report("C17-stderr", "main/format-args", "the message is not printed with Display",
+                                       where_of(main, t))
+                        # line, column and message must all come from the one error value (the Err payload)
+                        def err_locals(o):
+                            l = mir.op_local(o)
+                            return {x for x in prov.reach_locals(l)
+                                    if main.local_ty(x).endswith("error::Located<ruschm::error::ErrorData>") or main.local_ty(x).endswith("error::Located<error::ErrorData>")} if l is not None else set()
+                        common = err_locals(arg_ops[1]) & err_locals(arg_ops[2]) & err_locals(arg_ops[3])
+                        if not common:
+                            ctx.report("C17-stderr", "main/format-args", "line, column and message do not derive from "
+                                       "one SchemeError value (%s, %s, %s)" % (a[1][1], a[2][1], a[3][1]), where_of(main, t))
+                        if "location" not in main.local_name(mir.op_local(arg_ops[1]) or 0) if False else False:
+                            pass
+                    else:
+                        ctx.report("C17-stderr", "main/format-args", "expected 4 placeholders, got %d" % len(a), where_of(main, t))
+                # no stdout writer in the error arm
+                for bb, tt in main.calls(err_blocks):
+                    if callee_matches(tt, *STDOUT_FNS):
+                        ctx.report("C17-stderr", "main/stdout-in-error-arm", "the error arm writes to standard output via %s"
+                                   % callee(tt), where_of(main, tt))
+
+    ctx.guarded("C17-exit", d_main >= 3, _old_exit)
 
     # ------------------------------------------------------------------ C17-stdout-census
     ctx.rule("C17-stdout-census", "standard output / standard error are written only by the allowed functions")
+    def allowed(owner, table, crate, depth=4):
+        """an allowed writer, or a helper whose callers are all allowed writers (a function extracted from one)"""
+        if any(owner == k or owner.endswith("::" + k) for k in table):
+            return True
+        g = fb.call_graph(crate)
+        cs = {a.split("::{closure")[0] for a, bs in g.items() if owner in {x.split("::{closure")[0] for x in bs}} - {owner}
+        return depth > 0 and bool(cs) and all(allowed(c, table, crate, depth - 1) for c in cs)
     for crate in ("lib", "bin"):
         for f in fb.all(crate):
             for b, t in f.calls():
@@ -194,13 +209,13 @@ def run(ctx):
                 owner = f.name.split("::{closure")[0]
                 if any(c == x or c.endswith(x) for x in STDOUT_FNS):
                     ctx.inst("C17-stdout-census", "stdout/%s/%s" % (owner, c))
-                    if not any(owner == k or owner.endswith("::" + k) for k in STDOUT_ALLOW):
+                    if not allowed(owner, STDOUT_ALLOW, crate):
                         ctx.report("C17-stdout-census", "stdout/%s/%s" % (owner, c.rsplit("::", 1)[-1]),
                                    "%s writes to standard output (via %s) but is not one of %s" % (
                                        owner, c, sorted(STDOUT_ALLOW)), where_of(f, t))
                 if any(c == x or c.endswith(x) for x in STDERR_FNS):
                     ctx.inst("C17-stdout-census", "stderr/%s/%s" % (owner, c))
-                    if not any(owner == k or owner.endswith("::" + k) for k in STDERR_ALLOW):
+                    if not allowed(owner, STDERR_ALLOW, crate):
                         ctx.report("C17-stdout-census", "stderr/%s/%s" % (owner, c.rsplit("::", 1)[-1]),
                                    "%s writes to standard error (via %s) but is not one of %s" % (
                                        owner, c, sorted(STDERR_ALLOW)), where_of(f, t))
